@@ -32,18 +32,18 @@ CHECKS = {
     'C04': dict(level='exploration', ref='4 C04',
         text='k independent per-connection histories (content fixed by (seed, index)) are merged by the seeded scheduler into one stream (2-6, sometimes 27-30 connections, same ids live on all of them); '
              'names in order of first appearance, exactly one New/Closed notice, role, `connection` listing, per-connection C02/C03 oracles, and equality of each connection\'s projected view with a solo replay of that connection in a fresh tool instance. '
-             'Workload B drives open/message/close/re-open sequences on the connection-id sink with real parsed messages.',
+             'Workload B drives open/message/close/re-open sequences on the connection-id sink with real parsed messages. Further workloads: logs that start late (first lines missing), one injected output-write fault at the connection-id sink (nothing announced or closed twice, open connections reachable), and in the thorough tier an exhaustive walk over all interleavings of tiny cases.',
         note='Trusted: as C02; role judged absolutely only when the first message is get_registry; Closed notices unordered.',
         technique=TECH + '; seeded interleavings'),
     'C06': dict(level='exploration', ref='4 C06',
         text='Component rig (real Parser + ConnectionManager + Controller): a multi-connection history streams in while a scripted user changes the filter and the selected connection '
              'between two reads at scheduler-chosen points; every arriving message is stamped with the reference (filter, selection) in force and the shown message lines are compared in both directions '
-             '(nothing matching hidden, nothing else shown, once, in order); Connection.messages() and a closing `connection all` + `list *` must contain every message.',
+             '(nothing matching hidden, nothing else shown, once, in order); Connection.messages() and a closing `connection all` + `list *` must contain every message. Every sixth run adds messages on objects the tool cannot resolve (under selection changes, filter *); app ids that collide with connection names are aimed at `connection <x>`.',
         note='Trusted: three-valued reference matcher over the documented subset (don\'t-cares counted); simulated endpoints and printer. Commands are injected between two readline() calls of the real parse loop.',
         technique=TECH + '; user actor scheduled between reads'),
     'C11': dict(level='exploration', ref='4 C11',
         text='`list [X:] [matcher] [~ N]` issued at scheduler-chosen points of streaming histories (selected connection or none, N absent/0/1../beyond, repeated); listed lines, last-N rule and the '
-             'matched/didn\'t/not-checked identity are compared with the reference evaluation of the recorded ground-truth history; side effects are detected by the filter/selection/breakpoint model on subsequent traffic.',
+             'matched/didn\'t/not-checked identity are compared with the reference evaluation of the recorded ground-truth history; side effects are detected by the filter/selection/breakpoint model on subsequent traffic. Every sixth run lists histories that contain messages on objects the tool cannot resolve, with and without a selected connection.',
         note='Trusted: reference matcher (queries with a don\'t-care message are checked for inclusion only and counted).',
         technique=TECH + '; user actor scheduled between reads'),
     'C12': dict(level='exploration', ref='4 C12',
@@ -54,13 +54,13 @@ CHECKS = {
     'C14': dict(level='exploration', ref='4 C14',
         text='Two parts, stated plainly: (1) a finite enumeration, not simulation: number_to_letter_id/letter_id_to_number against an independent bijective base-26 for all 475254 indexes through four letters plus 100000 sampled up to 1e18; '
              '(2) by simulation: sessions with heavy id churn on 1-30 connections in which every id+letters label and connection name harvested from the tool\'s own output is fed back by the user actor as `list X: <label>` / `list X:`; '
-             'the listed messages must be exactly the ground-truth messages on/mentioning/creating/destroying that incarnation (resp. of that connection); no two distinct objects display the same label.',
+             'the listed messages must be exactly the ground-truth messages on/mentioning/creating/destroying that incarnation (resp. of that connection); no two distinct objects display the same label. A further workload drives duplicate opens / closes / re-opens on the connection-id sink and checks name uniqueness and `list X:`.',
         note='Trusted: label scraping from output lines (string arguments removed), ground-truth incarnation tables. Histories reach two-letter labels (>26 incarnations) but not three-letter ones (bound: <=~130 incarnations per id).',
         technique=TECH + '; labels harvested from output and fed back by the user actor (bijection part: exhaustive enumeration)'),
     'C16': dict(level='exploration', ref='4 C16',
         text='The clock is the injected fault: each simulated session (filters make the shown sequence a strict subsequence; listings) is replayed, same seed, under epoch 0 and a second epoch in [1, 2^32) us and with both decimal marks; '
              'displays must be identical up to one unit of the last digit. Absolute oracle: shown time = log time - first log time; a separator with the right value appears between consecutively shown messages (live or within one listing) iff the '
-             'ground-truth gap exceeds 1 000 000 us (gaps generated on the us lattice around the threshold), never before the first line of a listing, never elsewhere.',
+             'ground-truth gap exceeds 1 000 000 us (gaps generated on the us lattice around the threshold), never before the first line of a listing, never elsewhere. A fifth of the runs use non-monotonic logs (lines stamped earlier than their predecessors or than the first line); a separator between a listing and the next live message is accepted only if it is the gap between the two live messages.',
         note='Deliberate don\'t-cares (counted): a gap of exactly 1 000 000 us; a live pair split by a non-empty listing. Trusted: simulated clock, printer model.',
         technique=TECH + '; clock-epoch shift and decimal-mark replay differential'),
     'C17': dict(level='exploration', ref='4 C17',
@@ -72,30 +72,30 @@ CHECKS = {
     'C13': dict(level='exploration', ref='4 C13',
         text='One byte stream is played through -l FILE, -p and -r PROG ARGS. In run mode subprocess.run is a simulated child writing to a simulated pipe; the helper thread is the real threading.Thread of run_program, '
              'parked and released one at a time at each sync point (child write / exit / close of the write end / reader raw read) as the seeded scheduler decides, with pipe capacities 16 B..64 KiB, write sizes from 1 byte, exit statuses 0..255 and ARGS made of wayland-debug\'s own option spellings. '
-             'Displays must be equal line for line; argv verbatim, WAYLAND_DEBUG=1, inherited environment, untouched stdout, every byte consumed before the prompt, exit status, no deadlock.',
+             'Displays must be equal line for line; argv verbatim, WAYLAND_DEBUG=1, inherited environment, untouched stdout, every byte consumed before the prompt, exit status, no deadlock. Streams may carry undecodable bytes and the runs may carry -f/-b; besides equality between modes the file-mode display must account for every line of the stream. Thorough tier: 8 sessions are repeated with a real child process through a real main.py -r (stub fidelity).',
         note='Trusted: the pipe/child model (EOF only when every holder of the write end has closed it). thread.join(timeout=1) is the only real-time element left.',
         technique=TECH + '; baton-passing thread schedules over a simulated pipe'),
     'C18': dict(level='exploration', ref='4 C18',
         text='Fault injection proper: well-formed simulated streams mutated by 1-20 transport faults (drop, dup, swap, tear, 64 KiB line, 5000-digit number, id 0, hostile look-alike lines, bit flips, inserted/deleted bytes, invalid UTF-8, NUL, truncation; random subset of kinds per run) '
              'in file, pipe (strict and surrogateescape stdin) and run mode: the run must end normally, consume the input to EOF, close every opened connection, within a wall budget. Generated matcher texts (alphabet soup, mutated valid matchers, deep nesting, Unicode) go through matcher.parse, the four commands and -f/-b; '
-             'accepted matchers must print, simplify and evaluate on every recorded message of a faulty session. Printable command lines are typed at arbitrary session states.',
+             'accepted matchers must print, simplify and evaluate on every recorded message of a faulty session. Printable command lines are typed at arbitrary session states. The output streams refuse text a UTF-8 terminal could not encode; workloads include exponent numbers (1e999), a battery of plainly valid matchers evaluated on every recorded message, and command lines thousands of characters long.',
         note='The tool reporting an internal error on its own output and carrying on is not an abort. EOF at the prompt and a missing program are outside the property.',
         technique=TECH),
     'C09': dict(level='exploration', ref='4 C09',
         text='GDB world: the real plugin.py and extract.py run against an in-process fake `gdb` module over byte-addressed fake inferior memory holding libwayland\'s structures (wl_closure, wl_message, wl_interface, union wl_argument, wl_array, wl_proxy, wl_resource, wl_client, wl_display, wl_connection). '
              'Closures from client- and server-side connections, sent and received, arrive in scheduler-chosen order (struct-offset cache cold / warm / warmed by the other side); signatures come from the shipped protocols and from per-run synthetic interfaces over i u f s o n a h with ? and version digits, 0-20 arguments. '
-             'Every Message returned by extract.received_message()/sent_message() is compared field by field with the ground-truth closure, and with what the real parse.message() decodes from the libwayland printer model\'s rendering of the same closure.',
+             'Every Message returned by extract.received_message()/sent_message() is compared field by field with the ground-truth closure, and with what the real parse.message() decodes from the libwayland printer model\'s rendering of the same closure. Thorough tier: 24 sessions are replayed as C programs under the real gdb 13 with the real plugin and must print the same lines (stub fidelity).',
         note='Caveat stated in DESIGN.md: the quantifier is over closures (inputs); the simulator contributes the stand-in peer (gdb + inferior) without which none of extract.py runs, and the history dimension (offset cache, mixed sides). The fake gdb is the trusted base; fixed-point expression semantics were taken from real gdb 13.1.',
         technique=TECH + '; in-process fake gdb and simulated inferior'),
     'C10': dict(level='exploration', ref='4 C10',
         text='GDB world: messages on 1-3 connections from 1-3 inferior threads interleaved by the seeded scheduler with user commands typed whenever the inferior is halted (breakpoint changes through every registered spelling, connection selection, list, help, garbage, wlresume, wlquit, plain gdb continue); '
              'gdb.execute("continue") re-enters the inferior loop synchronously as in real gdb. For every message the value returned by stop() and the Stopped-at notice are compared with the reference breakpoint state and selection; for every command, continue is executed iff it was resume, quit iff quit, otherwise neither. '
-             'A second workload drives TerminalUI.run_until_stopped with scripted input and counts prompts.',
+             'A second workload drives TerminalUI.run_until_stopped with scripted input and counts prompts. Sessions also contain wl_connection_destroy events (never a halt there; selection survives the close of the selected connection), app-id/name collisions and state-neutral garbage commands.',
         note='Trusted: fake gdb (re-entrant continue), reference matcher (don\'t-cares counted). A command typed while the program runs is modelled as a user interrupt followed by the command.',
         technique=TECH + '; in-process fake gdb, user actor scheduled at halts'),
     'C15': dict(level='exploration', ref='4 C15',
         text='GDB world event sequences: messages on any of several wl_connection addresses from any thread, wl_connection_destroy of open, already closed and never-seen connections, address re-use through a LIFO heap. '
-             'Notices (New on the first message with the role from get_registry direction, Closed exactly when an open one is destroyed, silence for other destroys), fresh names and object tables after re-use (per-connection C02/C03 oracles), connections() bookkeeping, no exception out of any stop().',
+             'Notices (New on the first message with the role from get_registry direction, Closed exactly when an open one is destroyed, silence for other destroys), fresh names and object tables after re-use (per-connection C02/C03 oracles), connections() bookkeeping, no exception out of any stop(). One output-side fault is injected where the unchanged tree is robust (Ctrl-C inside gdb.write of a Closed notice). Thorough tier: 16 sessions are replayed as C programs under the real gdb 13 with the real plugin (stub fidelity).',
         note='Trusted: fake gdb and simulated inferior; an exception raised by stop() halts the inferior as in real gdb.',
         technique=TECH + '; in-process fake gdb and simulated inferior'),
 }
